@@ -57,6 +57,11 @@ type Pipe struct {
 	// Delays are per-read delays, cycled; empty = none.
 	Delays   []time.Duration
 	delayIdx int
+	// Pause: one long pause, once, before the PauseAtRead-th delivering read (0-based): the device
+	// falls silent in the middle of whatever it was sending
+	Pause       time.Duration
+	PauseAtRead int
+	readsN      int
 	// KeepEsc forbids cuts inside an ANSI escape sequence (when the read size allows).
 	KeepEsc bool
 	// Barrier offsets: a read never crosses these device-stream offsets (used to keep two
@@ -326,9 +331,20 @@ func (p *Pipe) Read(n int) ([]byte, error) {
 		}
 
 		// there is something to deliver; apply the per-read delay first (lock released)
-		if len(p.Delays) > 0 {
-			d := p.Delays[p.delayIdx%len(p.Delays)]
-			p.delayIdx++
+		pauseNow := p.Pause > 0 && p.readsN == p.PauseAtRead
+		p.readsN++
+
+		if len(p.Delays) > 0 || pauseNow {
+			d := time.Duration(0)
+
+			if len(p.Delays) > 0 {
+				d = p.Delays[p.delayIdx%len(p.Delays)]
+				p.delayIdx++
+			}
+
+			if pauseNow {
+				d += p.Pause
+			}
 
 			if d > 0 {
 				p.mu.Unlock()
